@@ -172,6 +172,10 @@ def proof_step(prop, log):
             if rc != 0:
                 raise Infra("audit of JS.Props.Tie failed:\n" + txt[-2000:])
             want = {"JS.Props.Tie.tie_%s" % fn for fn in relevant}
+            # … and their composition: the evaluator over the interpreted source IS the evaluator over the
+            # model functions on every shaped schema (guarded with references, outright without)
+            want |= {"JS.Props.Tie.evalStepSrc_eq_evalStep", "JS.Props.Tie.evalSrcG_eq_evalG", "JS.Props.Tie.evalSrc_eq_eval_reffree",
+                     "JS.Props.Tie.evalSrc_eq_eval"}
             for line in txt.splitlines():
                 i = line.find("AUDIT {")
                 if i < 0:
@@ -187,7 +191,7 @@ def proof_step(prop, log):
             missing = want - set(out["theorems"])
             if missing:
                 out["broken"].append({"module": "JS.Props.Tie", "errors": ["tie theorems missing: %s" % sorted(missing)]})
-            for m in ("JS.Props.Tie", "JS.Proofs.TieBase", "JS.Proofs.TieA", "JS.Proofs.TieB", "JS.Proofs.TieC",
+            for m in ("JS.Props.Tie", "JS.Proofs.TieBase", "JS.Proofs.TieA", "JS.Proofs.TieB", "JS.Proofs.TieC", "JS.Proofs.TieCompose",
                       "JS.Py.IR", "JS.Py.Interp", "JS.Py.EvalSrc"):
                 srcf = os.path.join(LEAN, *m.split(".")) + ".lean"
                 hit = FORBIDDEN.search(strip_comments(open(srcf).read()))
